@@ -24,6 +24,12 @@ from harness.common import InfraError, Toks, toks
 
 BIN = {"alt": "|", "and": "&", "shuf": "^"}
 BOUNDS = [None, 0, 1, 2, 3]
+# wider pool for the shaped-random streams: larger and multi-digit bounds; 7 is always SPELLED with
+# leading zeros ("007", see quant_text), so leading-zero numerals occur in every rendering style
+BOUNDS_WIDE = [None, 0, 1, 2, 3, 4, 5, 6, 7, 10, 12]
+# symbol characters that are easy to get wrong: a digit, the comma and the minus sign (all three
+# also occur inside quantifier braces), a non-ASCII letter, a non-BMP letter
+ODD_LITERALS = ["1", ",", "-", "\u00e9", "\U0001d4b3"]
 
 
 def rep_ok(lo, hi) -> bool:
@@ -75,16 +81,34 @@ def level(e) -> int:
     return 4
 
 
-def quant_text(lo, hi) -> str:
-    return "{" + ("" if lo is None else str(lo)) + "," + ("" if hi is None else str(hi)) + "}"
+def bound_text(b, style: str = "min", rng: Optional[random.Random] = None) -> str:
+    """Text of one repetition bound.  An omitted bound is the EMPTY text (a blank there would be
+    `int(" ")` → ValueError).  7 is spelled 007.  Style `blank` pads the numeral with one blank on
+    each side inside the braces, `extra` pads randomly (blanks / tabs, leading zeros)."""
+    if b is None:
+        return ""
+    t = "007" if b == 7 else str(b)
+    if style == "blank":
+        return " " + t + " "
+    if style == "extra" and rng is not None:
+        if rng.random() < 0.2:
+            t = "0" * rng.choice([1, 2]) + t
+        if rng.random() < 0.25:
+            t = rng.choice(["", " ", "\t", "  "]) + t + rng.choice(["", " ", "\t"])
+    return t
+
+
+def quant_text(lo, hi, style: str = "min", rng: Optional[random.Random] = None) -> str:
+    return "{" + bound_text(lo, style, rng) + "," + bound_text(hi, style, rng) + "}"
 
 
 def render(e, style: str = "min", rng: Optional[random.Random] = None) -> str:
     """Concrete syntax of `e`.
     min   : as few parentheses as the grammar allows (left-associative chains unparenthesised)
     full  : every compound sub-expression parenthesised
-    blank : `min` with a blank between all tokens
-    extra : random redundant parentheses and blanks (needs rng)"""
+    blank : `min` with a blank between all tokens, and around each numeral inside quantifier braces
+    extra : random redundant parentheses and blanks, also inside braces; random leading zeros
+            in bounds (needs rng)"""
     def sep() -> str:
         if style == "blank":
             return " "
@@ -114,7 +138,7 @@ def render(e, style: str = "min", rng: Optional[random.Random] = None) -> str:
         elif k == "opt":
             s = go(e[1], 3) + sep() + "?"
         elif k == "rep":
-            s = go(e[1], 3) + sep() + quant_text(e[2], e[3])
+            s = go(e[1], 3) + sep() + quant_text(e[2], e[3], style, rng)
         else:
             raise ValueError(k)
         lv = level(e)
@@ -164,9 +188,11 @@ def asts_upto(alphabet: Sequence[str], d: int, quants) -> List[tuple]:
     return seen
 
 
-def rand_ast(rng: random.Random, alphabet: Sequence[str], max_depth: int, p_foreign: float = 0.0) -> tuple:
-    """Shaped random AST: quantifier bounds from {∅,0,1,2,3} with lower = upper likely,
-    nested quantifiers, ∩ / shuffle under star."""
+def rand_ast(rng: random.Random, alphabet: Sequence[str], max_depth: int, p_foreign: float = 0.0,
+             p_wide: float = 0.0) -> tuple:
+    """Shaped random AST: quantifier bounds from {∅,0,1,2,3} (with probability `p_wide` per
+    quantifier from BOUNDS_WIDE = {∅,0..6,007,10,12}) with lower = upper likely, nested quantifiers,
+    ∩ / shuffle under star."""
     def go(d: int) -> tuple:
         if d == 0 or rng.random() < 0.18:
             r = rng.random()
@@ -183,11 +209,12 @@ def rand_ast(rng: random.Random, alphabet: Sequence[str], max_depth: int, p_fore
             sub = go(d - 1)
             if k != "rep":
                 return (k, sub)
-            lo = rng.choice(BOUNDS)
+            pool = BOUNDS_WIDE if (p_wide and rng.random() < p_wide) else BOUNDS
+            lo = rng.choice(pool)
             if rng.random() < 0.35:
-                hi = lo if lo is not None else rng.choice(BOUNDS)
+                hi = lo if lo is not None else rng.choice(pool)
             else:
-                hi = rng.choice(BOUNDS)
+                hi = rng.choice(pool)
             if not rep_ok(lo, hi):
                 lo, hi = (hi, lo)
             return ("rep", sub, lo, hi)
@@ -631,10 +658,14 @@ def plain_real_nfa(nfa) -> dict:
 
 
 # ------------------------------------------------------------ isomorphism
-def nfa_iso(a: dict, b: dict) -> bool:
+def nfa_iso(a: dict, b: dict, names: bool = False) -> bool:
     """Isomorphism of plain NFAs (all states; rows compared with their key sets): colour
-    refinement, then backtracking inside colour classes."""
+    refinement, then backtracking inside colour classes.  `names=True` additionally requires the
+    two SETS of state names to be equal (the code draws names from a counter; the model reproduces
+    the counter, only the assignment inside a renamed block may differ by a permutation)."""
     if len(a["states"]) != len(b["states"]) or a["syms"] != b["syms"]:
+        return False
+    if names and set(a["states"]) != set(b["states"]):
         return False
     if len(a["finals"]) != len(b["finals"]) or set(a["trans"]) - a["states"] or set(b["trans"]) - b["states"]:
         return False
